@@ -307,4 +307,23 @@ PROPS = {
             'runtime temporaries of the interpreter (kernel scratch buffers, e.g. BatchMatMul_scratch_buffer) are not tensors of the model: their uninitialised contents are outside the property (they are still required to be filed exactly once)',
             'tensor names are unique within a subgraph (input contract)'],
     },
+    'C06': {
+        'steps': [{'script': 'corr_graph.py', 'timeout': 1500, 'timeout_thorough': 6000},
+                  {'script': 'oracle_c06.py', 'timeout': 1500, 'timeout_thorough': 6000}],
+        'required_theorems': ['C06_dequantize_insertion_preserves_meaning',
+                              'C06_performer_dequantize_preserves_meaning',
+                              'C06_weight_only_plans_dequantize', 'C06_dynamic_range_partial'],
+        'rule': GRAPH_RULE + ('; C06 runtime oracle: generated models biased to weight ops x float-compute recipes '
+                              '(shipped weight-only / dynamic recipes, uniform rules, per-op mixed rules incl. scopes '
+                              'anchored to one op) x random inputs: reference model built from the INPUT model with '
+                              'constants decoded from the OUTPUT model by an own decoder; end-to-end comparison when no '
+                              'dynamic-range op, op-level re-execution of every op that reads a rewritten constant on the '
+                              'activations the quantized model saw. non-trivial = some constant rewritten; distinct = '
+                              'distinct output bytes'),
+        'trusted_base': COMMON_TB + GRAPH_TB + [
+            'LiteRT kernels are outside the model: they enter the theorems as an arbitrary kernel semantics K (function of op code, options and operand values) with the single hypothesis that DEQUANTIZE maps the stored constant to its dequantized value; for dynamic range an IDEALISED hybrid-kernel contract is a hypothesis (partial)'],
+        'assumptions': GRAPH_ASSUME + [
+            'runtime half validated by execution: weight-only/fp16 equal up to float32 rounding (rtol 1e-5); dynamic range within |dy_j| <= ||W_j||_1 * max|x| / 254 * 1.05 of the float op on dequantized constants',
+            'the constant is read only by the listed consumers and is not a graph output (hypotheses of the performer-level theorem; what the instruction generator emits for a weight-only constant)'],
+    },
 }
